@@ -86,8 +86,10 @@ class Tracer:
         tops: List[Any] = []
         if e is None:
             tops = []
-        elif isinstance(e, (Error, str)):
+        elif isinstance(e, Error):
             tops = [e]
+        elif isinstance(e, str):  # generated code, not an error (messages come as lists of strings)
+            tops = []
         elif isinstance(e, (list, tuple)):
             tops = [x for x in e if isinstance(x, (Error, str))]
         else:
